@@ -10,7 +10,7 @@ from .. import harness_kwn as H, scen, faults
 LEVEL = "fault_enumeration"
 ASSUMPTIONS = [
     "faults are scripted sets of call indices, counted after the first valid value of the same channel (the property speaks of continuing from the last valid values)",
-    "fault channels: multicomponent growth/interfacial-composition query returning None, impingement factor falling back to its last value; binary: a whole-grid interfacial-composition query answered with the documented -1 'unstable' sentinel for every size (partial sentinels for larger radii only are not generated: instability is monotone in the Gibbs-Thomson energy, C12)",
+    "fault channels: multicomponent growth/interfacial-composition query returning None, impingement factor falling back to its last value; binary: a whole-grid interfacial-composition query answered with the documented -1 'unstable' sentinel for every size, and the planar-interface query of a table build answered with (None, None) (the wording of the real class's docstring; the model accepts both) followed by a failed whole-grid query of the same build (partial sentinels for larger radii only are not generated: instability is monotone in the Gibbs-Thomson energy, C12)",
     "'exactly the requested end time' read as within 2 ulp; runs truncated by the harness step cap are judged on the steps they completed",
 ]
 ATTRS = ["time", "temperature", "composition", "xEqAlpha", "xEqBeta", "drivingForce", "impingement", "Gcrit", "Rcrit", "nucRate", "precipitateDensity", "Rnuc", "Ravg", "ARavg", "volFrac", "fconc"]
@@ -153,11 +153,13 @@ def check_faults_multi(case):
 def check_faults_binary(case):
     sc = case["sc"]
     phases = {p["name"]: {"xb": p["xb"], "dH": p["dH"], "dS": p["dS"]} for p in sc["phases"]}
-    therm = faults.FlakyToyBinary(phases, D0=sc["D0"], Q=sc["Q"], ic_faults=case["ic_faults"])
+    therm = faults.FlakyToyBinary(phases, D0=sc["D0"], Q=sc["Q"], ic_faults=case["ic_faults"], planar_none=case.get("planar_none", ()))
     out, model, tap, trunc = run_checked(sc, therm=therm)
     out.label(sc["iterator"], "phases_%d" % len(sc["phases"]), "T_" + sc["T"][0])
-    if therm.injected:
+    if any(c == "interfacial" for c, _, _ in therm.injected):
         out.label("interfacial_fault")
+    if any(c == "planar_none" for c, _, _ in therm.injected):
+        out.label("planar_query_answered_none")
     out.nt(bool(therm.injected) and bool(np.any(np.asarray(model.pData.precipitateDensity) > 0)))
     return out
 
@@ -236,7 +238,10 @@ def _binary_fault_case(draw):
     sc = draw(scen.toy_binary_scenario(cap=200, max_phases=2))
     if sc["T"][0] == "const" and draw(st.integers(0, 3)) > 0:      # whole-grid queries mostly happen on temperature changes and re-meshes
         sc["T"] = draw(scen.temperature_spec(sc["T"][1], sum(sc["durations"]), True))
-    return {"sc": sc, "ic_faults": draw(_fault_set(horizon=40))}
+    case = {"sc": sc, "ic_faults": draw(_fault_set(horizon=40))}
+    if draw(st.booleans()):
+        case["planar_none"] = draw(_fault_set(horizon=20))
+    return case
 
 
 @st.composite
@@ -274,7 +279,7 @@ def clauses():
         Clause("faults_multi", _multi_fault_case, check_faults_multi, quick=160, thorough=3000, shrink=False,
                rule="generator: toy ternary scenario x scripted fault schedule {single, early, sparse, burst, dense up to 0.5/call} for the growth query (returns None) and optionally the impingement factor (falls back); same oracle; non-trivial: a growth fault injected while the driving force is positive in a run that holds precipitates"),
         Clause("faults_binary", _binary_fault_case, check_faults_binary, quick=100, thorough=2000, shrink=False,
-               rule="generator: toy binary scenario x scripted schedule of interfacial-composition queries answered with the -1 sentinel for every size; same oracle; non-trivial: a fault injected in a run that holds precipitates"),
+               rule="generator: toy binary scenario x scripted schedule of interfacial-composition queries answered with the -1 sentinel for every size, and (1 in 2) a second schedule of planar-interface queries answered with (None, None) together with the table query of the same build; same oracle; non-trivial: a fault injected in a run that holds precipitates"),
         Clause("real_db", _real_case, check_real, quick=24, thorough=400, shrink=False,
                rule="generator: Al-Zr and Ni-Al-Cr scenarios on the shipped databases; for Ni-Al-Cr optionally a scripted schedule on which the equilibrium step (_getCompositionSetsEq) returns None, i.e. the documented 'did not converge' path of the real class; same well-formedness oracle; non-trivial: >= 30 steps (with an injected fault when a schedule is present)"),
     ]
